@@ -244,15 +244,17 @@ typedef struct {
     sslKeys_t *skeys, *ckeys; /* overrides */
     int verMask;              /* optional: several versions (bit i = MX_ version i) instead of `ver` */
     int ems;                  /* 0 default, -1 disable */
+    int srvVerMask;           /* optional: versions the SERVER enables (the client keeps ver / verMask) */
 } mx_cfg;
 
 static void mx_opts(sslSessOpts_t *o, const mx_cfg *c, int role)
 {
     memset(o, 0, sizeof *o);
     psProtocolVersion_t v = mx_verflag(c->ver);
-    if (c->verMask) {
+    int mask = (role == MX_SERVER && c->srvVerMask) ? c->srvVerMask : c->verMask;
+    if (mask) {
         psProtocolVersion_t vs[8]; int n = 0;
-        for (int i = MX_NVER - 1; i >= 0; i--) if (c->verMask & (1 << i)) vs[n++] = mx_verflag(i);
+        for (int i = MX_NVER - 1; i >= 0; i--) if (mask & (1 << i)) vs[n++] = mx_verflag(i);
         if (role == MX_SERVER) matrixSslSessOptsSetServerTlsVersions(o, vs, n); else matrixSslSessOptsSetClientTlsVersions(o, vs, n);
     } else if (MX_IS_DTLS(c->ver)) o->versionFlag = SSL_FLAGS_DTLS | (c->ver == MX_DTLS12 ? SSL_FLAGS_TLS_1_2 : SSL_FLAGS_TLS_1_1);
     else if (role == MX_SERVER) matrixSslSessOptsSetServerTlsVersionRange(o, v, v);
